@@ -118,6 +118,36 @@ def soups():
     return out
 
 
+def dup_chunks(data):
+    """variants of a RIFF / RIFX / FORM / caff file with one top-level chunk repeated (a second cue / smpl / PEAK / MARK / chan ...):
+    the second parse of a chunk must release or reuse what the first one allocated"""
+    out = []
+    if data[:4] in (b"RIFF", b"RIFX", b"FORM") and len(data) > 12:
+        be = data[:4] != b"RIFF"
+        pos, spans = 12, []
+        while pos + 8 <= len(data):
+            n = struct.unpack(">I" if be else "<I", data[pos + 4:pos + 8])[0]
+            end = min(len(data), pos + 8 + n + (n & 1))
+            spans.append((pos, end))
+            pos = end
+        for (a, b) in spans:
+            if b - a > 40000:
+                continue
+            body = data[8:b] + data[a:b] + data[b:]
+            out.append(data[:4] + struct.pack(">I" if be else "<I", len(body)) + body)
+    elif data[:4] == b"caff" and len(data) > 8:
+        pos, spans = 8, []
+        while pos + 12 <= len(data):
+            n = struct.unpack(">q", data[pos + 4:pos + 12])[0]
+            end = len(data) if n < 0 else min(len(data), pos + 12 + n)
+            spans.append((pos, end))
+            pos = end
+        for (a, b) in spans:
+            if b - a <= 40000:
+                out.append(data[:b] + data[a:b] + data[b:])
+    return out
+
+
 # ---------------------------------------------------------------- mutation
 
 def mutate(rng, data, n):
